@@ -26,6 +26,11 @@ func NewH264Packetizer(meta *codec.VideoMeta, tsframeWriter FrameWriter) Packeti
 
 func (h264p *h264Packetizer) Packetize(frame *codec.Frame) error {
 	nalType := frame.Payload[0] & 0x1F
+	// 7-9 (SPS/PPS/AUD) 不作为 sample 发送, @see: ngx_rtmp_hls_video；
+	// prepareAvcHeader 不会为它们生成起始码，直接写出会在 PES 中留下没有 AnnexB 前缀的裸数据
+	if nalType >= h264.NalSps && nalType <= h264.NalAud {
+		return nil
+	}
 
 	// 90000Hz；用约分后的 9/100000，避免 ns*90000 在约 28.5 小时后溢出 int64
 	dts := frame.Dts * 9 / (int64(time.Second) / 10000)
